@@ -3,6 +3,7 @@ package props
 import (
 	"fmt"
 	"strings"
+	"unicode/utf8"
 
 	"github.com/hattya/go.sh/parser"
 
@@ -22,6 +23,7 @@ type c03Tok struct {
 type c03Case struct {
 	Toks []c03Tok `json:"toks"`
 	Tail string   `json:"tail,omitempty"` // an unterminated lexical construct appended to the rendered tokens
+	Raw  string   `json:"raw,omitempty"`  // a source text that ends inside a here-document (must be rejected)
 	Kind string   `json:"kind"`
 }
 
@@ -55,6 +57,10 @@ func c03Render(ts []c03Tok) (string, []int) {
 }
 
 func c03Exec(c *core.Ctx, cs c03Case) {
+	if cs.Raw != "" {
+		c03Raw(c, cs)
+		return
+	}
 	var rt []recog.Tok
 	for _, t := range cs.Toks {
 		rt = append(rt, recog.Tok{K: recog.Kind(t.K), Text: t.Text, Plain: t.Plain})
@@ -133,6 +139,29 @@ func c03Exec(c *core.Ctx, cs c03Case) {
 	}
 	if c.Index()%20011 == 0 {
 		c.Sample(map[string]any{"source": src, "verdict": verdict.String(), "error": err.Error()})
+	}
+}
+
+// c03Raw: a prefix of a valid program that ends inside a here-document body.
+func c03Raw(c *core.Ctx, cs c03Case) {
+	cmds, _, err := parser.ParseCommands(nil, "c03-name", cs.Raw)
+	c.Eval(1)
+	c.Count("verdict/incomplete", 1)
+	key := q(cs.Raw)
+	if err == nil {
+		c.Violation("accepted-incomplete", key, "a syntax error (the input ends inside a here-document)", fmt.Sprintf("nil error, %d command(s)", len(cmds)), "")
+		return
+	}
+	pe, ok := err.(parser.Error)
+	switch {
+	case !ok:
+		c.Violation("error-type", key, "parser.Error", fmt.Sprintf("%T: %v", err, err), "")
+	case pe.Name != "c03-name":
+		c.Violation("error-name", key, "c03-name", pe.Name, "")
+	case pe.Pos.IsZero() || newSrcIndex(cs.Raw).off(pe.Pos) < 0:
+		c.Violation("error-position", key, "a position inside the source", fmt.Sprintf("%d:%d", pe.Pos.Line(), pe.Pos.Col()), pe.Msg)
+	default:
+		c.Distinct(cs.Kind, errClass(pe.Msg))
 	}
 }
 
@@ -222,6 +251,40 @@ func c03Gen(c *core.Ctx) {
 				cs.Toks = append(cs.Toks, pick(r, c03Vocab))
 			}
 			core.Run(c, cs, c03Exec)
+		}
+	}
+	// 1b. prefixes of programs that end inside a here-document body
+	nhd := c.Pick(1500, 30000)
+	for i := 0; i < nhd; i++ {
+		r := c.Rand("hd", int64(i))
+		p := gen.New(r, gen.Options{Budget: 1 + r.IntN(6), Heredocs: true, HDBias: true, NoNested: true, Flat: i%2 == 0, LeadHD: i%3 == 0}).Program()
+		hds := gen.Heredocs(p)
+		rd := gen.Join(gen.Tokens(p, true), nil)
+		hi := 0
+		for _, t := range rd.Toks {
+			if t.Kind != gen.THereBody || hi >= len(hds) {
+				continue
+			}
+			h := hds[hi]
+			hi++
+			if gen.HeredocText(h) != t.Text {
+				break // (order of bodies differs from the walk order: skip this program)
+			}
+			delim := h.DelimText
+			for cut := 0; cut < len(t.Text)-1; cut++ {
+				if cut > 0 && cut < len(t.Text) && !utf8.RuneStart(t.Text[cut]) {
+					continue
+				}
+				part := t.Text[:cut]
+				last := part[strings.LastIndexByte(part, '\n')+1:]
+				if h.Dash {
+					last = strings.TrimLeft(last, "\t")
+				}
+				if last == delim {
+					continue // the cut leaves a line equal to the delimiter: a legitimate terminator at end of input
+				}
+				core.Do(c, c03Case{Raw: rd.Text[:t.Off+cut], Kind: "heredoc-truncation"}, c03Exec)
+			}
 		}
 	}
 	// 2. mutants of generated programs (without here-documents)
